@@ -192,7 +192,7 @@ func (r *Runner) observeRemote(ev *Event) {
 		}
 		o := DecodeLTX(fh, f.lvl, r.c.Cfg.PageSize, r.dict)
 		fh.Close()
-		o.TS = f.mtime.UnixMilli() // what the file replica reports as CreatedAt
+		o.TS = r.rel(f.mtime.UnixMilli()) // what the file replica reports as CreatedAt (ms, relative)
 		ev.NewRem = append(ev.NewRem, o)
 	}
 }
@@ -234,6 +234,10 @@ func (r *Runner) replStep(op string, st []any) (string, bool, bool) {
 			}
 			cut = snaps[k-1].mtime.Add(time.Millisecond)
 		}
+		r.lastCut = cut.UnixMilli()
+		if cut.UnixNano()%1e6 != 0 {
+			r.lastCut++ // files with ms-resolution times strictly below `cut` <=> ts < ceil(cut in ms)
+		}
 		floor, err := r.ls.EnforceSnapshotRetention(ctx, cut)
 		if err != nil {
 			return errClass(err), false, true
@@ -273,6 +277,7 @@ func (r *Runner) replStep(op string, st []any) (string, bool, bool) {
 			d = time.Nanosecond
 		}
 		r.ls.L0Retention = d
+		r.lastCut = thr.UnixMilli()
 		err := r.ls.EnforceL0RetentionByTime(ctx)
 		return errClass(err), false, true
 	case "AgeFile": // place the age of the k-th replica file of a level: "old" (2 h ago) or "fresh" (now)
